@@ -103,8 +103,12 @@ type sidesInfo struct {
 	constRemove       constant.Value
 	constAdd          constant.Value
 
-	itemT     *types.Named // iterItem
-	itemLinkF int          // index of considerLink
+	itemT      *types.Named // iterItem
+	itemLinkF  int          // index of considerLink
+	itemEntryF int          // index of the entry (yield) field, -1 if not resolved
+	// names of the key / value fields of the entry struct
+	entryKeyName, entryValueName string
+	keyCell                      *sdSlot // the state field fed to the entry callback's key position
 
 	votes    []sdVote
 	rounds   int
@@ -307,18 +311,173 @@ func (S *sidesInfo) anchors2() {
 		}
 		S.constRemove, S.constAdd = look("DiffType_Remove"), look("DiffType_Add")
 	}
-	// role table: the stack item and its link field
-	S.itemT = P.Named(ir.MastPath, "iterItem")
-	S.itemLinkF = -1
-	if st := P.StructOf(ir.MastPath, "iterItem"); st != nil {
+	S.resolveItem()
+	S.resolveKeyCell()
+}
+
+// resolveItem finds the stack item type and its fields by structure: the
+// diff state holds two fields of one named struct type (the old and the new
+// stack) whose only field is a slice of a named struct — the item; in the
+// item the link is the interface-typed field and the entry the struct-typed
+// one; the entry's key / value fields are those filled from Node.Key /
+// Node.Value. The literal names are the fallback.
+func (S *sidesInfo) resolveItem() {
+	P := S.P
+	S.itemLinkF, S.itemEntryF = -1, -1
+	S.entryKeyName, S.entryValueName = "Key", "Value"
+	for tn, role := range S.sidedT {
+		if role != "state" {
+			continue
+		}
+		st, _ := tn.Type().Underlying().(*types.Struct)
+		if st == nil {
+			continue
+		}
+		count := map[*types.Named]int{}
 		for i := 0; i < st.NumFields(); i++ {
-			if st.Field(i).Name() == "considerLink" {
+			if n, ok := types.Unalias(st.Field(i).Type()).(*types.Named); ok {
+				count[n]++
+			}
+		}
+		for n, k := range count {
+			ss, _ := n.Underlying().(*types.Struct)
+			if k != 2 || ss == nil || ss.NumFields() != 1 {
+				continue
+			}
+			sl, _ := ss.Field(0).Type().Underlying().(*types.Slice)
+			if sl == nil {
+				continue
+			}
+			el, _ := types.Unalias(sl.Elem()).(*types.Named)
+			if el == nil {
+				continue
+			}
+			if _, isStruct := el.Underlying().(*types.Struct); isStruct {
+				S.itemT = el
+			}
+		}
+	}
+	if S.itemT == nil {
+		S.itemT = P.Named(ir.MastPath, "iterItem")
+	}
+	if S.itemT == nil {
+		S.miss("the stack item type (element of the slice held by the two stack fields of the diff state; fallback name iterItem)")
+		return
+	}
+	ist, _ := S.itemT.Underlying().(*types.Struct)
+	if ist == nil {
+		S.miss("struct " + S.itemT.Obj().Name())
+		return
+	}
+	nIface, nStruct := 0, 0
+	for i := 0; i < ist.NumFields(); i++ {
+		switch ist.Field(i).Type().Underlying().(type) {
+		case *types.Interface:
+			nIface++
+			S.itemLinkF = i
+		case *types.Struct:
+			nStruct++
+			S.itemEntryF = i
+		}
+	}
+	if nIface != 1 {
+		S.itemLinkF = -1
+		for i := 0; i < ist.NumFields(); i++ {
+			if ist.Field(i).Name() == "considerLink" {
 				S.itemLinkF = i
 			}
 		}
 	}
-	if S.itemT == nil || S.itemLinkF < 0 {
-		S.miss("field iterItem.considerLink")
+	if S.itemLinkF < 0 {
+		S.miss("the link field of " + S.itemT.Obj().Name() + " (its one interface-typed field; fallback name considerLink)")
+		return
+	}
+	if nStruct != 1 {
+		S.itemEntryF = -1
+	}
+	// the entry's key / value fields: filled from Node.Key / Node.Value
+	if S.itemEntryF >= 0 {
+		et := ist.Field(S.itemEntryF).Type()
+		for _, fn := range S.fns {
+			for _, b := range fn.Blocks {
+				for _, ins := range b.Instrs {
+					st, ok := ins.(*ssa.Store)
+					if !ok {
+						continue
+					}
+					fa, ok := st.Addr.(*ssa.FieldAddr)
+					if !ok {
+						continue
+					}
+					pt, ok := fa.X.Type().Underlying().(*types.Pointer)
+					if !ok || !types.Identical(pt.Elem(), et) {
+						continue
+					}
+					name := ir.FieldName(fa.X.Type(), fa.Field)
+					switch {
+					case sdPathThroughNodeField(st.Val, "Key"):
+						S.entryKeyName = name
+					case sdPathThroughNodeField(st.Val, "Value"):
+						S.entryValueName = name
+					}
+				}
+			}
+		}
+	}
+}
+
+// sdPathThroughNodeField: the access path of v goes through the exported
+// field `name` of the exported type Node.
+func sdPathThroughNodeField(v ssa.Value, name string) bool {
+	for i := 0; i < 16; i++ {
+		v = ir.ResolveCell(ir.Strip(v))
+		switch x := v.(type) {
+		case *ssa.UnOp:
+			if x.Op != token.MUL {
+				return false
+			}
+			v = x.X
+		case *ssa.FieldAddr:
+			if ir.FieldName(x.X.Type(), x.Field) == name && ir.IsPtrToNamed(x.X.Type(), "Node") {
+				return true
+			}
+			v = x.X
+		case *ssa.IndexAddr:
+			v = x.X
+		case *ssa.Index:
+			v = x.X
+		default:
+			return false
+		}
+	}
+	return false
+}
+
+// resolveKeyCell marks the state field handed to the entry callback at its
+// `key` position as written from both sides by design (fallback: the table).
+func (S *sidesInfo) resolveKeyCell() {
+	if S.entrySig == nil {
+		return
+	}
+	ki := -1
+	for i := 0; i < S.entrySig.Params().Len(); i++ {
+		if S.entrySig.Params().At(i).Name() == "key" {
+			ki = i
+		}
+	}
+	if ki < 0 {
+		return
+	}
+	for _, fn := range S.fns {
+		for _, ci := range CallsOf(fn) {
+			if S.callbackKind(ci) != "entry" || ki >= len(ci.Common().Args) {
+				continue
+			}
+			if sl := S.slotRef(ci.Common().Args[ki]); sl != nil && sl.owner == "state" && sl.exempt == "" {
+				sl.exempt = sdExemptFields["state.curKey"]
+				S.keyCell = sl
+			}
+		}
 	}
 }
 
